@@ -500,6 +500,45 @@ example : run Dispatch.passwordAuth true [.supported, .authenticate, .authSucces
 example : run Dispatch.passwordAuth true [.supported, .authenticate] = (.up, ["O", "S", "A", "Q"]) := by decide
 example : run Dispatch.passwordAuth false [.supported, .authenticate, .authChallenge] = (.failed, ["O", "S", "A"]) := by decide
 
+/-- FULL, configuration as a parameter: for EVERY configuration (CQLVersion set or empty, ProtoVersion fixed or
+    discovered, compressor or none, Authenticator / AuthProvider / a failing AuthProvider, host lookup on or off),
+    EVERY content of the SUPPORTED multimap (any keys in any order, repeated keys, zero / one / many entries, empty
+    strings, unknown names), EVERY script of answers to the set-up requests and every answer to the discovery
+    connection, nothing panics: the set-up as the code builds it reads no element of any list the node sent. -/
+theorem C05_connsetup_cfg_total (cfg : SetupCfg) (sup : Supported) (script : List Dispatch.FrameKind) (d : Disc) :
+    (runCfg .configured cfg sup script d).isDead = false := by
+  unfold runCfg
+  split
+  · rfl
+  · split
+    · rfl
+    · have hv : cqlVersion .configured cfg sup = some (if cfg.cqlSet then "3.0.0" else "~") := by
+        unfold cqlVersion; split <;> rfl
+      rw [hv]
+      simp only []
+      rw [C05_connsetup_total]
+      simp only [Bool.false_eq_true, if_false]
+      split <;> rfl
+
+/-- what reading an element would need: a STARTUP that takes the FIRST version the node offers when none is
+    configured (`supported["CQL_VERSION"][0]`) dies on a well-formed SUPPORTED whose CQL_VERSION list is empty -
+    also when a later duplicate of the key is the empty one - and only with CQLVersion "" -/
+theorem C05_connsetup_first_offered_crashes :
+    runCfg .firstOffered ⟨false, false, false, 0, true⟩ [(.cql, [])] [] .normal = .dead ∧
+    runCfg .firstOffered ⟨false, false, true, 1, false⟩ [(.cql, [.v300]), (.comp, [.snappy]), (.cql, [])] [] .normal = .dead ∧
+    (runCfg .firstOffered ⟨true, false, false, 0, true⟩ [(.cql, [])] [] .normal).isDead = false ∧
+    (runCfg .firstOffered ⟨false, false, false, 0, true⟩ [(.cql, [.v345, .v300])] [] .normal).isDead = false := by
+  refine ⟨?_, ?_, ?_, ?_⟩ <;> decide
+
+/-- non-vacuity: the last COMPRESSION entry decides; discovery adopts the version an ERROR names -/
+example : runCfg .configured ⟨false, false, true, 0, true⟩ [(.comp, []), (.comp, [.lz4, .snappy])] [] .normal
+    = .done .up ["O", "S"] "~" "snappy" := by decide
+example : runCfg .configured ⟨true, false, true, 0, true⟩ [(.comp, [.lz4, .snappy]), (.comp, [])] [] .normal
+    = .done .up ["O", "S"] "3.0.0" "none" := by decide
+example : runCfg .configured ⟨true, true, false, 0, true⟩ [] [] (.errGreatest (some 4)) = .done .up ["O", "S"] "3.0.0" "none" ∧
+    runCfg .configured ⟨true, true, false, 0, true⟩ [] [] (.errGreatest (some 77)) = .done .failed [] "-" "-" ∧
+    runCfg .configured ⟨true, true, false, 0, true⟩ [] [] (.errGreatest none) = .done .failed [] "-" "-" := by decide
+
 end connsetup
 
 end C05
